@@ -28,6 +28,7 @@ func init() {
 }
 
 func runC18(c *Ctx) {
+	debugL3(c.W)
 	ruleL1(c, "C18.L1", 55, nil)
 	ruleL2(c, "C18.L2")
 	ruleL3(c, "C18.L3", nil)
@@ -291,7 +292,10 @@ func ruleNoGuardedAlias(c *Ctx, rule string) {
 	w := c.W
 	c.Rule(rule, "L3b: the slice/map value of a guarded-by field is only indexed, ranged over, measured (len), passed to append as the appended source or as the base that is stored straight back into the field, or passed to delete/copy; it is never returned, stored elsewhere or handed to a call — a reference that escapes the critical section is read without the lock", 4)
 	for _, g := range guardedTable {
-		f := w.Field(g.pkg, g.typ, g.field)
+		f := w.FieldOpt(g.pkg, g.typ, g.field)
+		if f == nil {
+			continue // the field no longer exists
+		}
 		switch f.Type().Underlying().(type) {
 		case *types.Slice, *types.Map:
 		default:
@@ -461,9 +465,39 @@ func ruleCloseOnce(c *Ctx, rule string) {
 				}
 			}
 			held := li.mustAt(in)
+			// once-only holder: close(x.f) on the edge x.f != nil, with x.f reset to nil before
+			// any lock held at the close is released: a second caller finds nil
+			nilGuard := false
+			if len(held) > 0 {
+				nonNil := false
+				for _, fct := range w.factsAt(in) {
+					if v, isNil, ok := nilFact(fct); ok && !isNil && w.sameKey(v, ch) {
+						nonNil = true
+					}
+				}
+				if nonNil {
+					reset := false
+					for i := indexIn(in) + 1; i < len(in.Block().Instrs); i++ {
+						nx := in.Block().Instrs[i]
+						if nc, isC := nx.(ssa.CallInstruction); isC {
+							if lo := w.lockOpOf(nc.Common()); lo != nil && (lo.op == "Unlock" || lo.op == "RUnlock") {
+								break
+							}
+						}
+						if st, isSt := nx.(*ssa.Store); isSt {
+							if fa, isFA := st.Addr.(*ssa.FieldAddr); isFA && fieldOf(fa) == f && isNilConst(st.Val) {
+								reset = true
+							}
+						}
+					}
+					nilGuard = reset
+				}
+			}
 			switch {
 			case guarded:
 				c.OK(rule, fname(fn), "close "+f.Name(), w.instrPos(in), "closed-test dominates the close (locks held: {"+held.str()+"})")
+			case nilGuard:
+				c.OK(rule, fname(fn), "close "+f.Name(), w.instrPos(in), "closed on the non-nil edge and reset to nil within the same critical section ({"+held.str()+"}): once only")
 			case nm(f) == "resultCh":
 				// Transaction.Close: only for map-resident transactions, under mutexTrMap (C12.6)
 				if holds(held, "turn.Client.mutexTrMap", true) {
